@@ -65,7 +65,8 @@ def _parse_ruby_link(
         # standard ref link [text][label]
         label, link_pos = parse_link_label(state.src, pos + 1)
         if label and link_pos:
-            ref_links = state.env["ref_links"]
+            # inline text parsed on its own (a TOC entry) has no reference table
+            ref_links = state.env.get("ref_links") or {}
             key = unikey(label)
             env = ref_links.get(key)
             if env:
